@@ -19,8 +19,9 @@ def _init():
     warnings.simplefilter("ignore")
 
 
-class _Timeout(Exception):
-    pass
+class _Timeout(BaseException):
+    """raised by the per-task alarm; a BaseException so that no `except Exception` in a replay can mistake it for a
+    failure of the code under test"""
 
 
 def _alarm(signum, frame):
